@@ -428,3 +428,123 @@ Fixpoint list_eqb {A} (eqb : A -> A -> bool) (l1 l2 : list A) : bool :=
   | a :: t1, b :: t2 => eqb a b && list_eqb eqb t1 t2
   | _, _ => false
   end.
+
+(* ------------------------------------------------------------------ 5. the collector switch (CELLO_NGC) *)
+
+(* A program that reaches objects only through its registers (the root slots): allocate, read, write,
+   re-link, copy a pointer into a register, clear a register.  With the collector compiled in, a
+   collection may happen before every operation; `collect n` is what the n-th opportunity does to the
+   heap.  Addresses are never reused in this model (an abstraction: identity of objects, not their
+   location); the real collector is C01's subject — here it is a parameter. *)
+Definition addr := nat.
+Record gobj := mkObj { payload : Z; fields : list addr }.
+Definition heap := addr -> option gobj.
+Definition roots := list (option addr).
+Definition path := (nat * list nat)%type.       (* root slot, then field indices *)
+
+Definition upd (h : heap) (a : addr) (o : gobj) : heap := fun x => if Nat.eqb x a then Some o else h x.
+
+Fixpoint deref_from (h : heap) (a : addr) (is : list nat) : option addr :=
+  match is with
+  | [] => Some a
+  | i :: r => match h a with
+              | Some o => match nth_error (fields o) i with
+                          | Some b => deref_from h b r
+                          | None => None
+                          end
+              | None => None
+              end
+  end.
+
+Definition deref (h : heap) (rs : roots) (p : path) : option addr :=
+  match nth_error rs (fst p) with
+  | Some (Some a) => deref_from h a (snd p)
+  | _ => None
+  end.
+
+Fixpoint set_root (rs : roots) (n : nat) (v : option addr) : roots :=
+  match rs, n with
+  | [], _ => []
+  | _ :: t, O => v :: t
+  | x :: t, S m => x :: set_root t m v
+  end.
+
+Fixpoint set_field (l : list addr) (n : nat) (v : addr) : list addr :=
+  match l, n with
+  | [], _ => []
+  | _ :: t, O => v :: t
+  | x :: t, S m => x :: set_field t m v
+  end.
+
+Fixpoint deref_all (h : heap) (rs : roots) (ps : list path) : option (list addr) :=
+  match ps with
+  | [] => Some []
+  | p :: r => match deref h rs p, deref_all h rs r with
+              | Some a, Some l => Some (a :: l)
+              | _, _ => None
+              end
+  end.
+
+Inductive gop :=
+| GAlloc (dst : nat) (v : Z) (fs : list path)     (* dst = new object with payload v and the given objects as fields *)
+| GRead (p : path)                                (* observe the payload *)
+| GWrite (p : path) (v : Z)
+| GSetField (p : path) (i : nat) (q : path)
+| GMove (dst : nat) (p : path)                    (* register := pointer *)
+| GDrop (dst : nat).                              (* register := NULL: whatever hung only there is garbage *)
+
+Inductive gout := GUnit | GVal (v : Z) | GBad.    (* GBad: a path that leads nowhere (same in every build) *)
+
+Record gstate := mkG { gheap : heap; groots : roots; gnext : addr }.
+
+Definition gstep (s : gstate) (o : gop) : gstate * gout :=
+  let h := gheap s in let rs := groots s in
+  match o with
+  | GAlloc dst v fs =>
+    match deref_all h rs fs with
+    | Some l => (mkG (upd h (gnext s) (mkObj v l)) (set_root rs dst (Some (gnext s))) (S (gnext s)), GUnit)
+    | None => (s, GBad)
+    end
+  | GRead p =>
+    match deref h rs p with
+    | Some a => match h a with Some ob => (s, GVal (payload ob)) | None => (s, GBad) end
+    | None => (s, GBad)
+    end
+  | GWrite p v =>
+    match deref h rs p with
+    | Some a => match h a with
+                | Some ob => (mkG (upd h a (mkObj v (fields ob))) rs (gnext s), GUnit)
+                | None => (s, GBad)
+                end
+    | None => (s, GBad)
+    end
+  | GSetField p i q =>
+    match deref h rs p, deref h rs q with
+    | Some a, Some b => match h a with
+                        | Some ob => (mkG (upd h a (mkObj (payload ob) (set_field (fields ob) i b))) rs (gnext s), GUnit)
+                        | None => (s, GBad)
+                        end
+    | _, _ => (s, GBad)
+    end
+  | GMove dst p =>
+    match deref h rs p with
+    | Some a => (mkG h (set_root rs dst (Some a)) (gnext s), GUnit)
+    | None => (s, GBad)
+    end
+  | GDrop dst => (mkG h (set_root rs dst None) (gnext s), GUnit)
+  end.
+
+(* a run; with the collector compiled in, a collection may happen before every operation: `collect n`
+   is what the n-th opportunity does to the heap (the identity when no collection happens then) *)
+Fixpoint grun (gc : bool) (collect : nat -> heap -> roots -> heap) (n : nat) (ops : list gop) (s : gstate)
+  : gstate * list gout :=
+  match ops with
+  | [] => (s, [])
+  | o :: r =>
+    let s0 := if gc then mkG (collect n (gheap s) (groots s)) (groots s) (gnext s) else s in
+    let '(s1, out) := gstep s0 o in
+    let '(s2, outs) := grun gc collect (S n) r s1 in (s2, out :: outs)
+  end.
+
+
+Definition grun_cfg (c : config) := grun (gc c).
